@@ -128,11 +128,14 @@ def Op.respOf : Op → Option CheckResp
 
 def Op.offer (op : Op) : Option Offer := op.respOf.bind (·.patch)
 
-/-- The configuration under which this op enters the state lock, if it does. -/
+/-- The configuration under which this op loads the stored state, if it does. (A check loads it
+    only to process a rollback list or to decide about an offered patch.) -/
 def entersWith (cfg : Option Config) (op : Op) : Option Config :=
   match op with
   | .init p => (match cfg with | some _ => none | none => mkConfig p)
   | .restart | .auto | .damage _ => none
+  | .check _ none => none
+  | .check _ (some r) => if r.rolledBack.isSome || r.patch.isSome then cfg else none
   | _ => cfg
 
 /-- Does this op start by discarding the stored state (release change, unreadable or missing
@@ -317,14 +320,17 @@ structure G03 where
   blind : Bool := false
 deriving Repr, Inhabited
 
-def G03.next (g : G03) (op : Op) (pre post : View) : G03 :=
+def G03.next (env : Env) (g : G03) (op : Op) (pre post : View) : G03 :=
   let cfg := trackCfg g.cfg op
   if resetsState g.cfg op pre then { cfg := cfg, good := none, blind := false } else
   match succeededBy g.cfg op pre with
   | some n =>
-    (match post.fileOf n with
-    | some b => { cfg := cfg, good := some (n, b), blind := false }
-    | none => { cfg := cfg, good := none, blind := true })
+    -- the patch that just booted is "good" if its artifact is (still) intact at this moment
+    (match post.fileOf n, post.ps.last with
+    | some b, some m =>
+      if m.number = n ∧ post.valid env (g.cfg.bind (·.key)) m then { cfg := cfg, good := some (n, b), blind := false }
+      else { cfg := cfg, good := none, blind := true }
+    | _, _ => { cfg := cfg, good := none, blind := true })
   | none =>
     if op.isStateDamage then { cfg := cfg, good := none, blind := true } else
     match g.good with
@@ -337,9 +343,9 @@ def G03.next (g : G03) (op : Op) (pre post : View) : G03 :=
 
 def mon03 : Monitor G03 where
   init := {}
-  next _ g op pre post := g.next op pre post
-  checks _ g op pre post :=
-    let g' := g.next op pre post
+  next env g op pre post := g.next env op pre post
+  checks env g op pre post :=
+    let g' := g.next env op pre post
     -- (a) the good artifact survives every op that does not excuse it
     (match g.good, g'.good with
       | some (n, b), some (n', _) =>
@@ -567,7 +573,11 @@ def G18.next (g : G18) (op : Op) (pre post : View) : G18 :=
         else (some n, g.blind)
   let running : Option Nat :=
     match op, g.cfg with
-    | .start, some _ => post.bootingNum      -- (a repeated start hands out again)
+    | .start, some _ =>
+      -- what this start handed to the engine: the selection it recorded as booting, if any
+      (match post.nextNum with
+      | some n => if post.bootingNum = some n then some n else none
+      | none => none)
     | _, _ =>
       match g.running with
       | none => none
